@@ -60,7 +60,7 @@ class Gen:
 
     def __init__(self, rnd: random.Random, *, ncomps=(1, 4), depth=3, width=3, provide=False,
                  elems=False, collide=True, required=0.04, loops=True, withs=True, dyn_fill=True,
-                 isf=True, aliases=True, hooks=0.0, alias_collide=False):
+                 isf=True, aliases=True, hooks=0.0, alias_collide=False, assigns=0.0):
         self.r = rnd
         self.ncomps = ncomps
         self.depth = depth
@@ -76,6 +76,7 @@ class Gen:
         self.aliases = aliases
         self.hooks = hooks
         self.alias_collide = alias_collide
+        self.assigns = assigns        # C03: probability of assignment tags ({% firstof .. as v %}) in a body with fills
         self.tid = 0
         self.eid = 0
 
@@ -193,7 +194,7 @@ class Gen:
             return self._t()
         if t == "var":
             x = r.choice(self.SCALARS + (["i", "w"] if r.random() < 0.5 else []) + (["inj_p.f", "inj_q.g"] if self.provide else [])
-                         + (["hb", "hb"] if self.hooks else []))
+                         + (["hb", "hb"] if self.hooks else []) + (["v", "v", "v"] if self.assigns else []))
             if "." in x:
                 a, f = x.split(".")
                 return {"t": "fld", "x": a, "f": f}
@@ -243,8 +244,30 @@ class Gen:
             a = self.fills(lex, depth - 1, in_fill)
         return {"t": "comp", "c": c, "kw": kw, "only": r.random() < 0.15, "body": body, "a": a}
 
+    def asg(self) -> Dict[str, Any]:
+        """Assignment tag {% firstof e "dflt" as x %}: binds x for the rest of the enclosing body.  Names: fresh (v) or
+        colliding with page / data / with names (y, z, w) - never a loop variable (x, i, s)."""
+        r = self.r
+        x = r.choice(["v", "v", "y", "z", "w"]) if self.collide else "v"
+        e = V(r.choice(self.SCALARS + ["i", "w", "v"])) if r.random() < 0.8 else C(f"k{r.randint(1, 9)}")
+        return {"t": "asg", "x": x, "e": e, "dflt": f"d{r.randint(1, 9)}"}
+
     def fills(self, lex: int, depth: int, in_fill) -> List[Dict[str, Any]]:
-        """Fill-level nodes: fill tags, possibly under if / for / with."""
+        """Fill-level nodes: fill tags, possibly under if / for / with; with `assigns` also assignment tags
+        directly in the body (before / between / after the fills) and directly in a for / with wrapper."""
+        out = self._fills0(lex, depth, in_fill)
+        if not self.assigns or self.r.random() >= self.assigns:
+            return out
+        r = self.r
+        for f in out:
+            if f["t"] in ("for", "with") and r.random() < 0.4:
+                f["a"].insert(0, self.asg())
+        for _ in range(r.choice([1, 1, 2])):
+            # mostly before the first fill (every fill then sees it), sometimes between / after
+            out.insert(0 if r.random() < 0.6 else r.randint(0, len(out)), self.asg())
+        return out
+
+    def _fills0(self, lex: int, depth: int, in_fill) -> List[Dict[str, Any]]:
         r = self.r
         names = ["a", "b", "default"]
         r.shuffle(names)
@@ -323,6 +346,8 @@ def tpl_src(nodes: List[Dict[str, Any]], tag: str, dyn: bool = False, probes: bo
             out.append("{%% for %s in %s %%}%s{%% endfor %%}" % (n["x"], n["xs"], tpl(n["a"])))
         elif t == "with":
             out.append("{%% with %s=%s %%}%s{%% endwith %%}" % (n["x"], _expr_src(n["e"]), tpl(n["a"])))
+        elif t == "asg":
+            out.append('{%% firstof %s "%s" as %s %%}' % (_expr_src(n["e"]), n["dflt"], n["x"]))
         elif t == "slot":
             fl = (" default" if n["d"] else "") + (" required" if n["r"] else "")
             out.append('{%% slot "%s"%s%s %%}%s{%% endslot %%}' % (n["n"], _kw_src(n["data"]), fl, tpl(n["a"])))
